@@ -262,8 +262,27 @@ def run(prog, chk):
         raise AnalysisBroken("Xml::Element::toString not found")
     ts = ts[0]
     # reader: attribute value stop set from readToken's endChars literal
-    lit = [n for n in rt.nodes if n["k"] == "StringLiteral" and n.get("bytes") and 13 in n["bytes"] and 10 in n["bytes"] and len(n["bytes"]) <= 4]
-    attr_special = set(lit[0]["bytes"][1:]) | {34, 39, 38} if lit else set()
+    # (a char array initialised from a literal whose first byte is overwritten with the quote, or from a brace list `{quote, '\r', '\n', 0}`)
+    stopc = None
+    for n_ in rt.nodes:
+        if n_["k"] != "DeclStmt":
+            continue
+        for d_ in n_["decls"]:
+            if not re.search(r"char ?\[\d+\]$", (d_.get("t") or "").replace("const ", "")) or d_.get("init") is None:
+                continue
+            consts = set()
+            for x in [rt.strip(d_["init"])] + list(rt.desc(d_["init"])):
+                nx = rt.nodes[x]
+                if nx["k"] == "StringLiteral" and nx.get("bytes"):
+                    consts |= set(nx["bytes"][1:])          # the first byte is a placeholder for the quote
+                elif nx["k"] in ("CharacterLiteral", "IntegerLiteral"):
+                    v_ = fin.eval_expr(rt, x, {})
+                    if isinstance(v_, int) and v_:
+                        consts.add(v_)
+            if {10, 13} <= consts and len(consts) <= 4:
+                stopc = consts
+    lit = [stopc] if stopc else []
+    attr_special = set(stopc) | {34, 39, 38} if stopc else set()
     if not lit:
         raise AnalysisBroken("readToken: attribute stop set literal not found")
     # writer: escapeChars global + the replace() calls in toString for attributes
